@@ -842,3 +842,33 @@ func (c *countStarts) count() int64 {
 	defer c.mu.Unlock()
 	return c.n
 }
+
+// CallVarScenarios (C02): "variables passed in a call are the ones the callee sees" - also when the
+// callee lives in an included Taskfile that declares a default for the same name, for direct
+// calls, for-loop calls and at include depth 2.
+func CallVarScenarios() []Scenario {
+	root := "version: '3'\nincludes:\n  lib: {taskfile: ./lib}\n  short: ./lib2\ntasks:\n" +
+		"  direct: {cmds: [{task: 'lib:show', vars: {MODE: passed-1}}]}\n" +
+		"  looped: {cmds: [{for: [loop-a, loop-b], task: 'lib:show', vars: {MODE: '{{.ITEM}}'}}]}\n" +
+		"  deep: {cmds: [{task: 'lib:inner:show', vars: {MODE: passed-deep}}]}\n" +
+		"  viadep: {deps: [{task: 'lib:show', vars: {MODE: passed-dep}}]}\n" +
+		"  shortform: {cmds: [{task: 'short:show', vars: {MODE: passed-short}}]}\n" +
+		"  local: {cmds: [{task: here, vars: {MODE: passed-local}}]}\n" +
+		"  here: {vars: {OTHER: x}, cmds: ['echo MODE={{.MODE}}']}\n"
+	lib := "version: '3'\nvars: {MODE: lib-default}\nincludes:\n  inner: {taskfile: ./inner}\ntasks:\n  show: {cmds: ['echo MODE={{.MODE}}']}\n"
+	inner := "version: '3'\nvars: {MODE: inner-default}\ntasks:\n  show: {cmds: ['echo MODE={{.MODE}}']}\n"
+	lib2 := "version: '3'\nvars: {MODE: lib2-default}\ntasks:\n  show: {cmds: ['echo MODE={{.MODE}}']}\n"
+	files := map[string]string{"Taskfile.yml": root, "lib/Taskfile.yml": lib, "lib/inner/Taskfile.yml": inner, "lib2/Taskfile.yml": lib2}
+	mk := func(name, call, marker string, n int) Scenario {
+		return Scenario{Name: name, Files: files, Calls: []string{call}, Want: "ROk", Marker: marker, WantN: n}
+	}
+	return []Scenario{
+		mk("callvar-included-direct", "direct", "MODE=passed-1", 1),
+		mk("callvar-included-loop-a", "looped", "MODE=loop-a", 1),
+		mk("callvar-included-loop-b", "looped", "MODE=loop-b", 1),
+		mk("callvar-included-depth2", "deep", "MODE=passed-deep", 1),
+		mk("callvar-included-dep", "viadep", "MODE=passed-dep", 1),
+		mk("callvar-included-shortform", "shortform", "MODE=passed-short", 1),
+		mk("callvar-local", "local", "MODE=passed-local", 1),
+	}
+}
